@@ -75,27 +75,20 @@ def showWant : Want → String
   | .line m p => s!"line x{m}" ++ showPen p
   | .unspecified => "unspecified"
 
-/-- Is `bs` the UTF-8 form of one code point acceptable for `mask`? -/
-def lineGlyphOK (mask : Nat) (bs : List UInt8) : Bool :=
-  match Utf8.nextUtf8 bs 0 (some bs.length) with
-  | none => false
-  | some d => d.n == bs.length && glyphOK mask d.cp
-
-/-- One cell: `""` when the obligation holds. -/
+/-- One cell: `""` when the obligation holds (`cellOK`, the predicate the theorems are about); otherwise why not. -/
 def checkCell (w : Want) (old new : TCell) : String :=
-  match w with
-  | .keep => if new == old then "" else "touched"
-  | .unspecified => ""
-  | .glyph g p =>
-    if new.glyph != g then "wrong glyph"
-    else if !penSame new.pen p then "wrong pen"
-    else if new.writes != old.writes + 1 then s!"written {new.writes - old.writes} times"
-    else ""
-  | .line m p =>
-    if !(match new.glyph with | .chars bs => lineGlyphOK m bs | _ => false) then "glyph lacks arms of the mask or has others"
-    else if !penSame new.pen p then "wrong pen"
-    else if new.writes != old.writes + 1 then s!"written {new.writes - old.writes} times"
-    else ""
+  if cellOK w old new then ""
+  else match w with
+    | .keep => "touched"
+    | .unspecified => "?"
+    | .glyph g p =>
+      if new.glyph != g then "wrong glyph"
+      else if !penSame new.pen p then "wrong pen"
+      else s!"written {new.writes - old.writes} times"
+    | .line m p =>
+      if !(match new.glyph with | .chars bs => lineGlyphOK m bs | _ => false) then "glyph lacks arms of the mask or has others"
+      else if !penSame new.pen p then "wrong pen"
+      else s!"written {new.writes - old.writes} times"
 
 /-- All cells of the window, first failure reported. -/
 def checkGrid (rb : RB) (old : GridTerm) (new : Array (Array TCell)) (lines cols : Nat) : String :=
